@@ -541,6 +541,10 @@ impl WatchDispatcher {
                         Ok(event) => self.dispatch_event(event).await,
                         Err(broadcast::error::RecvError::Lagged(n)) => {
                             warn!("WatchDispatcher lagged {} events (slow watchers)", n);
+                            // The broadcast channel dropped `n` events nobody saw: every watcher may
+                            // have missed one. A stream is either gap-free or ended by CANCELED, so
+                            // end them all (clients re-register and resync from a scan).
+                            self.cancel_all_watchers();
                         }
                         Err(broadcast::error::RecvError::Closed) => {
                             debug!("Broadcast channel closed, WatchDispatcher stopping");
@@ -582,6 +586,31 @@ impl WatchDispatcher {
         }
         for key in prefix_keys {
             self.dispatch_to_map(&self.registry.prefix, &key, &progress).await;
+        }
+    }
+
+    /// Send the CANCELED sentinel to every registered watcher (using its reserved slot) and
+    /// unregister it. Used when events were lost before they could be routed.
+    fn cancel_all_watchers(&self) {
+        for map in [&self.registry.exact, &self.registry.prefix] {
+            let keys: Vec<Bytes> = map.iter().map(|e| e.key().clone()).collect();
+            for key in keys {
+                let ids: Vec<u64> = map
+                    .get(&key)
+                    .map(|watchers| {
+                        watchers
+                            .iter()
+                            .map(|w| {
+                                let _ = w.sender.try_send(crate::watch::make_cancel_event(key.clone()));
+                                w.id
+                            })
+                            .collect()
+                    })
+                    .unwrap_or_default();
+                for id in ids {
+                    self.registry.unregister(id, &key);
+                }
+            }
         }
     }
 
